@@ -163,6 +163,21 @@ def run(ctx):
                             ok = par is not None and ((m_, par) in ALLOWED_STATICS)
                         ctx.inst("C02.R1", "%s@static:%s" % (n.replace(CORE, ""), m_.replace(CORE, "")), ok,
                                  "static %s read in %s: %s" % (m_, n, ALLOWED_STATICS.get((m_, n)) or ALLOWED_STATICS.get((m_, None)) or why_st or "not an allowed static"), "%s:%d" % (s["sp"][0], s["sp"][1]))
+    # process-wide switches of the libraries underneath: whoever flips one changes every later evaluation in the process (a parser call
+    # limit set while loading one input caps every later parse) - nothing in the three crates may call them
+    GLOBAL_SETTERS = re.compile(r"^(pest::(parser_state::)?set_call_limit|pest::(parser_state::)?set_error_detail|std::env::(set_var|remove_var|set_current_dir)|std::panic::(set_hook|take_hook))")
+    n_gs = 0
+    for cr_ in crates:
+        for n_, f_ in sorted(cr_.mir.items()):
+            if "::tests::" in n_:
+                continue
+            fn_ = M.Fn(f_, n_)
+            for b_ in fn_.call_blocks():
+                c_ = fn_.callee(b_) or ""
+                if GLOBAL_SETTERS.match(c_):
+                    n_gs += 1
+                    ctx.inst("C02.R1", "%s->%s" % (n_.replace(CORE, ""), c_), False, "%s changes process-wide state: evaluations after this call behave differently from evaluations before it" % c_, fn_.loc(b_))
+    ctx.inst("C02.R1", "process-wide-switches#none", n_gs == 0, "calls of process-wide setters (pest call limit / error detail, environment, panic hook) in the three crates: %d" % n_gs, None)
     # the seeded generator takes its seed from the argument
     for mname, (mfn, _r) in sorted(BA.members.items()):
         for b in mfn.calls_to("fastrand::Rng::with_seed"):
